@@ -424,6 +424,10 @@ def c08_job(chk, rng, i):
     case["budget"] = {"events": 700}
     fl = flavour4(i) if not array else rotate(i, FLAV3)     # (no %array in C++)
     cfg = {"flavour": fl, "flexargs": (), "opts": {"array": array}}
+    if (i // 4) % 2 == 1 and fl != "cxx":
+        # yyless() called from a function of section 3 (the skeleton defines it a second time
+        # for that): same meaning as in an action, also with a yymore() prefix in front
+        cfg["opts"]["less_in_sect3"] = True
     if array and rng.chance(40):
         cfg["opts"]["yylmax"] = 512
     bs = rng.choice([None, 16, 64, 300])
@@ -431,8 +435,11 @@ def c08_job(chk, rng, i):
         # push-back only with the default buffer: ample room, i.e. "within the documented
         # push-back capacity" by construction
         cfg["opts"]["bufsize"] = bs
+    feats = ["array" if array else "pointer"]
+    if cfg["opts"].get("less_in_sect3") and "less" in case.get("uses", []):
+        feats.append("yyless_in_section3:" + ("array" if array else "pointer"))
     return {"case": case, "configs": [cfg], "inputs": inputs, "skip_if": dangerous,
-            "features": ["array" if array else "pointer"]}
+            "features": feats}
 
 
 # ---------------------------------------------------------------------------- C09
